@@ -1,6 +1,7 @@
 //! Independent reference models (DESIGN.md §4).  Nothing in here calls zerv.
 pub mod bump;
 pub mod calendar;
+pub mod flow;
 pub mod pep440;
 pub mod render;
 pub mod sanitize;
